@@ -1,1 +1,265 @@
-CHECKS = {}
+"""System-level properties: C04 (no crash), C05 (schedule independence), C15 (stats round trip),
+C16 (exit contract / accounting), C17 (orderly early stop), C19 (views)."""
+import os, re, json, shutil, signal, subprocess, time, random
+import fplib as L
+import fpgen as G
+from checks_unit import report_dis
+from checks_scan import chain_walk, hdr_fields, flt_args, flt_token, parse_view_rdh
+from checks_link import model_run, mode_args, mode_tok, MODES, faults, impl_errs
+
+
+def erroneous_stream(R, nlinks=3, nfaults=6, max_hbf=3):
+    F = faults(R)
+    names = [k for k in F if k not in ('rdh_version',)]
+    base, meta = G.conforming_stream(R, nlinks=nlinks, max_hbf=max_hbf)
+    pk = [p.clone() for p in base]
+    for _ in range(nfaults):
+        F[R.choice(names)](pk, R)
+    pk[0].rdh.update({k: base[0].rdh[k] for k in ('hsize', 'fee', 'prio', 'res0', 'ver')})
+    return pk, meta
+
+
+def fatal_stream(R):
+    pk, meta = G.conforming_stream(R, nlinks=2, max_hbf=3)
+    k = R.randrange(2, len(pk))
+    pk[k].rdh['off'] = 16
+    return pk, k
+
+
+# =============================================================== C16
+def run_c16(ck, ctx):
+    R, tier = ctx['R'], ctx['tier']
+    wd = os.path.join(L.CACHE, 'tmp', f'c16_{os.getpid()}')
+    os.makedirs(wd, exist_ok=True)
+    reps = 3 if tier == 'quick' else 25
+    # ---- exit status table
+    for rep in range(reps):
+        clean, _ = G.conforming_stream(R, nlinks=2)
+        bad, _ = erroneous_stream(R)
+        fat, fk = fatal_stream(R)
+        N = R.randint(1, 255)
+        cases = [('clean', G.encode(clean), ['check', 'all', 'its'], 0), ('clean_E', G.encode(clean), ['check', 'all', 'its', '-E', str(N)], 0),
+                 ('errors', G.encode(bad), ['check', 'all', 'its'], 0), ('errors_E', G.encode(bad), ['check', 'all', 'its', '-E', str(N)], N),
+                 ('errors_E_mute', G.encode(bad), ['check', 'all', 'its', '-E', str(N), '-m'], N),
+                 ('fatal', G.encode(fat), ['check', 'sanity'], 0), ('fatal_E', G.encode(fat), ['check', 'sanity', '-E', str(N)], N),
+                 ('nonalice', bytes(R.getrandbits(8) | 0x80 for _ in range(500)), ['check', 'sanity', '-E', str(N)], 1),
+                 ('text', b'this is not ALICE data at all, just a text file\n' * 20, ['check', 'all', 'its'], 1),
+                 ('empty', b'', ['check', 'sanity', '-E', str(N)], 1),
+                 ('view_clean', G.encode(clean), ['view', 'rdh', '-E', str(N)], 0)]
+        for name, data, args, want in cases:
+            r = L.run_cli(args, data)
+            ck.case((rep, name)); ck.count('exit_' + name)
+            if r.exit != want:
+                ck.violation('exit', {'what': 'exit status does not follow the contract', 'case': name, 'args': args, 'exit': r.exit, 'expected': want,
+                                      'stderr': L.ANSI.sub('', r.stderr)[-400:], 'input_hex': data.hex()[:100000]})
+        r = subprocess.run([L.BIN, os.path.join(wd, 'does_not_exist.raw'), 'check', 'sanity', '-E', '9'], stdout=subprocess.PIPE, stderr=subprocess.PIPE)
+        ck.case((rep, 'missing'))
+        if r.returncode == 0:
+            ck.violation('exit', {'what': 'missing input file: exit status 0', 'exit': r.returncode})
+    # ---- invalid option combinations are rejected before any output is written
+    clean, _ = G.conforming_stream(R, nlinks=1)
+    inp = os.path.join(wd, 'in.raw'); open(inp, 'wb').write(G.encode(clean))
+    txt = os.path.join(wd, 'stats.txt'); open(txt, 'w').write('{}')
+    invalid = [['check', 'sanity', 'its-stave'], ['check', 'all', 'its', '-p', '5'], ['check', 'all', 'its', '-p', '5', '-s', 'L0_1'], ['check', 'sanity', '-E', '0'],
+               ['check', 'sanity', '-i', txt], ['check', 'sanity', '-i', os.path.join(wd, 'nope.json')], ['view', 'rdh', '-p', '3', '-s', 'L1_1'],
+               ['check', 'all', 'its', '-E', '256'], ['-o', os.path.join(wd, 'o.raw')], ['check', 'sanity', '-S', os.path.join(wd, 'x.json')]]
+    for i, args in enumerate(invalid):
+        so = os.path.join(wd, f's{i}.json'); oo = os.path.join(wd, f'o{i}.raw')
+        extra = []
+        if '-S' not in args: extra += ['-S', so, '-D', 'json']
+        r = subprocess.run([L.BIN, inp] + args + extra, stdout=subprocess.PIPE, stderr=subprocess.PIPE)
+        ck.case(('invalid', i)); ck.count('invalid_options')
+        made = [p for p in (so, oo, os.path.join(wd, 'o.raw'), os.path.join(wd, 'x.json')) if os.path.exists(p)]
+        if r.returncode == 0 or made or r.stdout:
+            ck.violation('invalid', {'what': 'invalid option combination not rejected (non-zero exit) before any output is written', 'args': args, 'exit': r.returncode,
+                                     'files_created': made, 'stdout': r.stdout[:200].decode('utf-8', 'replace')})
+        for p in made: os.remove(p)
+    # ---- accounting and display options
+    reqs, rj = [], []
+    for rep in range(reps):
+        bad, _ = erroneous_stream(R, nfaults=R.randint(3, 14))
+        data = G.encode(bad)
+        base = L.run_cli(['check', 'all', 'its'], data)
+        ck.case((rep, 'accounting'))
+        if base.stats is None:
+            ck.violation('abnormal', {'what': 'erroneous stream: no statistics', 'stderr': base.stderr[-300:], 'input_hex': data.hex()}); continue
+        es = base.stats['error_stats']
+        shown = [e for e in L.stderr_errors(base.stderr) if e[1] != 'FATAL']
+        if es['total_errors'] != len(shown) or es['total_errors'] != len(es['reported_errors']) + len(es['custom_checks_stats_errors']):
+            ck.violation('total', {'what': 'error total differs from the number of error messages shown (no display option active)', 'total': es['total_errors'],
+                                   'shown': len(shown), 'input_hex': data.hex()})
+        mrep = re.search(r'Total Errors\s*[|│]?\s*(\d+)', L.ANSI.sub('', base.stdout.decode('utf-8', 'replace')))
+        if mrep and int(mrep.group(1)) != es['total_errors']:
+            ck.violation('report_total', {'what': 'report total differs from statistics total', 'report': mrep.group(1), 'stats': es['total_errors'], 'input_hex': data.hex()})
+        allcodes = [e[1] for e in base.errors]
+        # mute: nothing displayed, same total, same exit
+        m = L.run_cli(['check', 'all', 'its', '-m', '-E', '5'], data)
+        if L.stderr_errors(m.stderr) or (m.stats and m.stats['error_stats']['total_errors'] != es['total_errors']) or m.exit != (5 if es['total_errors'] else 0):
+            ck.violation('mute', {'what': '--mute-errors changes more than what is displayed', 'shown': L.stderr_errors(m.stderr)[:4], 'exit': m.exit, 'input_hex': data.hex()})
+        # code filter: exactly the messages with the listed codes (incl. codes that are prefixes of others)
+        present = sorted(set(c[1:] for c in allcodes if c.startswith('E')))
+        trial_lists = [[R.choice(present)] if present else ['10'], ['4'], ['44'], ['9'], ['99'], ['1'], present[:2] + ['7'], ['40', '4', '44'], ['9999']]
+        for codes in trial_lists[: (4 if tier == 'quick' else 9)]:
+            w = L.run_cli(['check', 'all', 'its', '-w'] + codes, data)
+            got = [e for e in L.stderr_errors(w.stderr) if e[1] != 'FATAL']
+            want = [(e[0], e[1]) for e in base.errors if e[1].startswith('E') and e[1][1:] in codes]
+            ck.case((rep, 'w', tuple(codes))); ck.count('code_filter_runs')
+            if got != want or (w.stats and w.stats['error_stats']['total_errors'] != es['total_errors']):
+                ck.violation('code_filter', {'what': '-w does not show exactly the messages with the listed codes (or changes the total)', 'codes': codes,
+                                             'got': got[:8], 'want': want[:8], 'input_hex': data.hex()})
+            reqs.append(f'run cmd=all target=its w={",".join(codes)} data={G.hexs(data)}'); rj.append(got)
+        # error cap: at most N messages shown
+        for cap in {1, 2, max(1, es['total_errors'] - 1), es['total_errors'], es['total_errors'] + 3}:
+            c = L.run_cli(['check', 'all', 'its', '-e', str(cap)], data)
+            got = [e for e in L.stderr_errors(c.stderr) if e[1] != 'FATAL']
+            ck.case((rep, 'cap', cap)); ck.count('cap_runs')
+            if len(got) > cap or c.exit != 0:
+                ck.violation('cap', {'what': 'error cap N shows more than N messages (or abnormal exit)', 'cap': cap, 'shown': len(got), 'exit': c.exit, 'input_hex': data.hex()})
+        reqs.append(f'run cmd=all target=its E=5 data={G.hexs(data)}'); rj.append([(e[0], e[1]) for e in base.errors])
+    model = model_run(reqs)
+    dis = []
+    for q, m, got in zip(reqs, model, rj):
+        if m['errors'] is None: dis.append((0, q[:120], 'ok', m['raw'][:80])); continue
+        ms = [tuple(t.split(':')) for t in m['shown'] if t != 'FATAL' and not t.startswith('custom')]
+        gs = [(str(a), b) for a, b in got]
+        if sorted(ms) != sorted(gs):
+            dis.append((0, q[:160], str(gs[:6]), str(ms[:6])))
+    ck.corr['display_model'] = dict(cases=len(reqs), disagreements=len(dis))
+    report_dis(ck, 'display_model', dis)
+    shutil.rmtree(wd, ignore_errors=True)
+    ck.sample(dict(exit_cases=['clean', 'errors_E', 'fatal_E', 'nonalice', 'empty', 'missing'], invalid=invalid[:3]))
+
+
+# =============================================================== C15
+def flatten_stats(st):
+    """statistics JSON -> the model's key=value tokens (strings hex-free: messages are hashed to keep the line short)"""
+    import hashlib
+    r, e = st['rdh_stats'], st['error_stats']
+    h = lambda m: hashlib.sha1(m.encode()).hexdigest()[:12]
+    o = lambda v: '-' if v is None else str(v)
+    lst = lambda l: '-' if not l else ','.join(map(str, l))
+    from checks_scan import TRIG_NAMES
+    toks = dict(rdhs_seen=r['rdhs_seen'], rdhs_filtered=r['rdhs_filtered'], rdh_version=o(r['rdh_version']), hbfs_seen=r['hbfs_seen'],
+                payload_size=r['payload_size'], data_format=o(r['data_format']), links=lst(r['links']), fee_id=lst(r['fee_id']),
+                system_id=o(r['system_id']), run_trigger_type='-' if r['run_trigger_type'] is None else f"{r['run_trigger_type'][0]}:{r['run_trigger_type'][1].replace(' ', '_')}",
+                layer_staves_seen=lst(f'{a}/{b}' for a, b in r['its_stats']['layer_staves_seen']), trig=','.join(str(r['trigger_stats'][n]) for n in TRIG_NAMES),
+                fatal_error='-' if e['fatal_error'] is None else h(e['fatal_error']), reported_errors=lst(h(m) for m in e['reported_errors']),
+                custom_checks_stats_errors=lst(h(m) for m in e['custom_checks_stats_errors']), total_errors=e['total_errors'],
+                unique_error_codes=lst(e['unique_error_codes']),
+                staves_with_errors='-' if e['staves_with_errors'] is None else (lst(f'{a}/{b}' for a, b in e['staves_with_errors']) if e['staves_with_errors'] else ''),
+                alpide='-' if st.get('alpide_stats') is None else ','.join(str(st['alpide_stats']['readout_flags'][n]) for n in
+                                                                           ['chip_trailers_seen', 'busy_violations', 'data_overrun', 'transmission_in_fatal', 'flushed_incomplete', 'strobe_extended', 'busy_transitions']))
+    return ' '.join(f'{k}={v}' for k, v in toks.items())
+
+
+def json_leaves(obj, path=()):
+    if isinstance(obj, dict):
+        for k, v in obj.items(): yield from json_leaves(v, path + (k,))
+    else:
+        yield path, obj
+
+
+def perturb(v, R):
+    if isinstance(v, bool): return not v
+    if isinstance(v, int): return v + 1
+    if isinstance(v, str): return v + 'x'
+    if v is None: return None
+    if isinstance(v, list):
+        if not v: return None          # cannot perturb type-preservingly without knowing the element type
+        w = list(v)
+        k = R.randrange(len(w))
+        if R.random() < 0.5 or len(w) == 1:
+            w[k] = perturb(w[k], R) if not isinstance(w[k], list) else [perturb(w[k][0], R)] + w[k][1:]
+        else:
+            del w[k]
+        return w
+    return None
+
+
+def set_path(obj, path, v):
+    for k in path[:-1]: obj = obj[k]
+    obj[path[-1]] = v
+
+
+def run_c15(ck, ctx):
+    R, tier = ctx['R'], ctx['tier']
+    wd = os.path.join(L.CACHE, 'tmp', f'c15_{os.getpid()}')
+    os.makedirs(wd, exist_ok=True)
+    from FastPastaNames import COMPARED
+    n = 4 if tier == 'quick' else 40
+    reqs, expect = [], []
+    for si in range(n):
+        if si % 2: pk, meta = erroneous_stream(R, nlinks=R.randint(2, 5), nfaults=R.randint(2, 10))
+        else: pk, meta = G.conforming_stream(R, nlinks=R.randint(1, 4))
+        inp = os.path.join(wd, f'in{si}.raw'); open(inp, 'wb').write(G.encode(pk))
+        for m in [('all', 'its'), ('all', 'stave'), ('sanity', None)]:
+            for fmt in ('json', 'toml'):
+                for mute in ([], ['-m']):
+                    if tier == 'quick' and (si + len(mute) + (fmt == 'toml')) % 2: continue
+                    sp = os.path.join(wd, f'st_{si}_{m[0]}_{m[1]}_{fmt}_{len(mute)}.{fmt}')
+                    r1 = subprocess.run([L.BIN, inp] + mode_args(m) + mute + ['-S', sp, '-D', fmt], stdout=subprocess.PIPE, stderr=subprocess.PIPE)
+                    ck.case((si, m, fmt, bool(mute), 'roundtrip')); ck.count(f'roundtrip_{fmt}')
+                    if not os.path.exists(sp):
+                        ck.violation('nostats', {'what': 'no statistics file written', 'exit': r1.returncode, 'stderr': r1.stderr.decode()[-300:], 'args': mode_args(m) + mute}); continue
+                    total = None
+                    r2 = subprocess.run([L.BIN, inp] + mode_args(m) + mute + ['-i', sp, '-E', '9', '-v', '2'], stdout=subprocess.PIPE, stderr=subprocess.PIPE)
+                    err2 = L.ANSI.sub('', r2.stderr.decode('utf-8', 'replace'))
+                    if 'Input stats matched collected stats' not in err2 or 'mismatch!' in err2:
+                        ck.violation('roundtrip', {'what': 'a statistics file written by a run is not accepted by a rerun on the same input with the same options',
+                                                   'args': mode_args(m) + mute, 'format': fmt, 'stderr': err2[-600:], 'input_hex': G.encode(pk).hex()[:200000]})
+                    if fmt != 'json': continue
+                    st = json.load(open(sp))
+                    # every leaf of the written file must be a field the model's comparison knows
+                    for path, v in json_leaves(st):
+                        leaf = path[-1]
+                        if leaf != 'is_finalized' and leaf not in COMPARED and not (leaf == 'alpide_stats' and v is None):
+                            ck.violation('unknown_leaf', {'what': 'the written statistics file has a leaf the modelled comparison does not know', 'leaf': '.'.join(path)}, has_input=False)
+                    # drift: every leaf perturbed one at a time
+                    leaves = [(p, v) for p, v in json_leaves(st) if p[-1] != 'is_finalized']
+                    if tier == 'quick': leaves = [l for i, l in enumerate(leaves) if (i + si) % 3 == 0]
+                    for path, v in leaves:
+                        if path[-1] == 'run_trigger_type' and isinstance(v, list):
+                            pv = [v[0] + 1, v[1]] if R.random() < 0.5 else [v[0], v[1] + 'x']     # a (u32, String) tuple
+                        elif path[-1] == 'system_id':
+                            pv = 'TPC' if v != 'TPC' else 'ITS'       # an enum: another valid value
+                        else:
+                            pv = perturb(v, R)
+                        if pv is None: continue
+                        st2 = json.loads(json.dumps(st)); set_path(st2, path, pv)
+                        if path[0] == 'alpide_stats' and m[1] != 'stave': continue
+                        pp = os.path.join(wd, 'pert.json'); json.dump(st2, open(pp, 'w'))
+                        r3 = subprocess.run([L.BIN, inp] + mode_args(m) + mute + ['-i', pp, '-E', '9', '-v', '2'], stdout=subprocess.PIPE, stderr=subprocess.PIPE)
+                        err3 = L.ANSI.sub('', r3.stderr.decode('utf-8', 'replace'))
+                        ck.case((si, m, path)); ck.count('drift_leaf_' + path[-1])
+                        if r3.returncode != 9 or 'Input stats did not match' not in err3:
+                            ck.violation('drift', {'what': 'a changed statistic in the file is not reported as a mismatch with the any-errors exit status',
+                                                   'leaf': '.'.join(path), 'old': str(v)[:100], 'new': str(pv)[:100], 'exit': r3.returncode, 'args': mode_args(m) + mute,
+                                                   'stderr': err3[-400:], 'input_hex': G.encode(pk).hex()[:200000]})
+                        reqs.append(f'statscmp {flatten_stats(st)} || {flatten_stats(st2)}'); expect.append('mismatch')
+                    reqs.append(f'statscmp {flatten_stats(st)} || {flatten_stats(st)}'); expect.append('match')
+        # input drift: a single-field change of the input must be detected with the old file
+        pk2 = [p.clone() for p in pk]; pk2[-1].rdh['trig'] ^= 0x4
+        inp2 = os.path.join(wd, f'in{si}_b.raw'); open(inp2, 'wb').write(G.encode(pk2))
+        sp = os.path.join(wd, f'd_{si}.json')
+        subprocess.run([L.BIN, inp, 'check', 'sanity', '-S', sp, '-D', 'json'], stdout=subprocess.PIPE, stderr=subprocess.PIPE)
+        r4 = subprocess.run([L.BIN, inp2, 'check', 'sanity', '-i', sp, '-E', '9', '-m'], stdout=subprocess.PIPE, stderr=subprocess.PIPE)
+        ck.case((si, 'input_drift'))
+        if r4.returncode != 9:
+            ck.violation('input_drift', {'what': 'a change of the input that alters a collected statistic is not reported against the old statistics file', 'exit': r4.returncode})
+    model = L.run_driver(reqs)
+    dis = [(i, q[:200], e, m[:120]) for i, (q, m, e) in enumerate(zip(reqs, model, expect)) if not m.startswith(e)]
+    ck.corr['statscmp_model'] = dict(cases=len(reqs), disagreements=len(dis))
+    report_dis(ck, 'statscmp_model', dis)
+    shutil.rmtree(wd, ignore_errors=True)
+    ck.sample(dict(note='round trips json/toml x mute x modes; every leaf of the written JSON perturbed one at a time'))
+
+
+CHECKS = {
+    'C15': dict(modules=['FastPasta.Props.C15'], run=run_c15, needs_harness=False, corr='statscmp_model',
+                theorems=['FastPasta.C15.validate_complete', 'FastPasta.C15.validate_refl', 'FastPasta.C15.drift_detected', 'FastPasta.C15.drift_sets_exit',
+                          'FastPasta.C15.mismCounters_nil']),
+    'C16': dict(modules=['FastPasta.Props.C16'], run=run_c16, needs_harness=False, corr='display_model',
+                theorems=['FastPasta.C16.exit_contract', 'FastPasta.C16.exit_in_range', 'FastPasta.C16.run_exit', 'FastPasta.C16.code_filter_exact',
+                          'FastPasta.C16.no_bracket_never_matches', 'FastPasta.C16.total_eq_shown', 'FastPasta.C16.mute_only_display',
+                          'FastPasta.C16.muted_shows_nothing', 'FastPasta.C16.cap_bound', 'FastPasta.C16.filter_shows_only_listed']),
+}
